@@ -1025,7 +1025,7 @@ func (h *Handle) FSync() error {
 func (h *Handle) Lock(pid int, locktype p9.LockType, flags p9.LockFlags, start, length uint64, client string) (p9.LockStatus, error) {
 	fs := h.fs
 	c := fs.call(h, "Lock")
-	c.LockArgs = [6]uint64{uint64(uint32(pid)), uint64(locktype), uint64(flags), start, length, 0}
+	c.LockArgs = [6]uint64{uint64(int64(pid)), uint64(locktype), uint64(flags), start, length, 0} // the pid as the File got it, sign and all
 	c.Client = client
 	fs.begin(c)
 	defer fs.end(c)
